@@ -17,7 +17,7 @@ from ..report import RuleResult
 from ..roles import param
 from ._c16_seq import paired_offset
 from ._c16_more import drape_offsets, geometry_kept, grouping_key
-from ._c16_flow import element_vars, enclosing, iterates, prepared, reachable, resolve_call, static_value
+from ._c16_flow import _record_arg, element_vars, enclosing, fold_uses, iterates, prepared, reachable, resolve_call, static_value
 
 _SHIFTED = "shifted_cells__"  # stands for `<input>.cells + <offset>` inside an offset source (a local in the pinned tree)
 _MODULES = ("np", "numpy", "int")
@@ -137,14 +137,37 @@ def _cell_offset(ctx, res):
     # the function with its helpers expanded, then whatever it reaches that could not be expanded in place: super(), hooks
     # dispatched on the class (as CellMerger and its subclasses see them), generators
     found = 0
-    for fn, recv in [(ctx.view(cm0), ci)] + reachable(ctx, cm0, ci):
-        found += _cell_offset_in(ctx, res, fn, recv)
+    views = [(ctx.view(cm0), ci)] + reachable(ctx, cm0, ci)
+    folds = fold_uses(ctx, views)
+    for fn, recv in views:
+        found += _cell_offset_in(ctx, res, fn, recv, folds.get((fn.module.relpath, fn.cls.name if fn.cls is not None else None, fn.name)))
     if not found:
         raise AnalysisError("CellMerger.create_object: `<entity>.cells + <offset>` not found")
 
 
-def _cell_offset_in(ctx, res, fn, recv) -> int:
+def _cell_offset_in(ctx, res, fn, recv, fold_inits=None) -> int:
     node, lc = prepared(ctx, fn, recv)
+    # the step function of a fold: its first parameter is the loop-carried state (sources: the initial state, what the step returns)
+    explicit0 = fn.params[1:] if fn.kind in ("method", "classmethod") else fn.params
+    state = explicit0[0] if fold_inits and explicit0 else None
+    state_sources = (list(fold_inits) + [r.value for r in ast.walk(node) if isinstance(r, ast.Return) and r.value is not None]) if state else []
+
+    def projected(src, rest):
+        """The part `rest` ('' | '.field' | '[i]') of a state value, else None."""
+        src = lc.expand(src)
+        if not rest:
+            return src
+        m = re.fullmatch(r"\.([A-Za-z_]\w*)|\[(-?\d+)\]", rest)
+        if m is None:
+            return None
+        if isinstance(src, ast.Call) and lc.fields is not None and lc.fields(src):
+            fl = lc.fields(src)
+            name = m.group(1) if m.group(1) else (fl[int(m.group(2))] if -len(fl) <= int(m.group(2)) < len(fl) else None)
+            return _record_arg(src, fl, name) if name else None
+        if isinstance(src, (ast.Tuple, ast.List)) and m.group(2) is not None and not any(isinstance(e, ast.Starred) for e in src.elts):
+            i = int(m.group(2))
+            return src.elts[i] if -len(src.elts) <= i < len(src.elts) else None
+        return None
     sites = []  # (owner of .cells, offset expression, text of the shifted cells)
     shifted_names = set()
     for n in ast.walk(node):
@@ -211,6 +234,13 @@ def _cell_offset_in(ctx, res, fn, recv) -> int:
             for lf in _leaves(sx):
                 if lf in followed or _vertex_count_source(lf, ent) or lf in _MODULES:
                     continue
+                if state is not None and re.match(rf"{re.escape(state)}(?![\w])", lf) and state not in lc.defs and state not in lc.augs:
+                    # a read of the fold's state: whatever flows into that part of the state is a source
+                    parts = [projected(src, lf[len(state):]) for src in state_sources]
+                    if parts and all(x is not None for x in parts):
+                        followed.add(lf)
+                        queue += [(x, True, False) for x in parts]
+                        continue
                 if _bare(lf) and lf != _SHIFTED and lf not in shifted_names and lf not in lc.params and lf not in lc.opaque and (lf in lc.defs or lf in lc.augs):
                     # an accumulator / re-bound local: everything assigned to it is a source as well
                     followed.add(lf)
